@@ -1,5 +1,11 @@
-(** C03 — proofs (under construction). *)
-From Coq Require Import ZArith List Bool Lia.
-Import ListNotations.
-Require Import Nib.C03.Model Nib.C03.Ref Nib.C03.Spec.
-Local Open Scope Z_scope.
+(** C03 — proofs: the development is split into
+      ProofsBase   the observable view [V] of a journaled StateDB (caches invisible)
+      ProofsUndo   reverting journal entries / unwinding, on the view
+      ProofsOps    every vm.StateDB method = the reference operation on the view; its journal entries revert it
+      ProofsSim    simulation with the copy-stack reference for arbitrary sequences
+      ProofsInv    structural invariants Commit relies on (cache coherence, dirty counts)
+      ProofsCommit Commit writes exactly the visible state
+      ProofsTx     transactions, histories, ApplyEvmMsg arithmetic, non-vacuity examples
+    This file gathers them for Property.v. *)
+Require Export Nib.C03.ProofsBase Nib.C03.ProofsUndo Nib.C03.ProofsOps Nib.C03.ProofsSim
+               Nib.C03.ProofsInv Nib.C03.ProofsCommit Nib.C03.ProofsTx.
